@@ -45,7 +45,8 @@ theorem groupRuns_spec (op : Int → Int → Int) (l : List (Nat × Int)) (hs : 
     ∀ g ∈ groupRuns op l, g.2.1 = foldl1 op (rowVals l g.1) ∧ g.2.2 = (rowVals l g.1).length :=
   groupRuns_spec_aux op l hs
 
-/-- **reduceCore_rowReduce.** `reduceCore` is literally: admissibility test; transpose the kept axes
+/-- **reduceCore_rowReduce.** `reduceCore` is literally: admissibility test; empty-reduced-axis test
+(no super ufunc and a reduced extent of 0: `ValueError`); transpose the kept axes
 first and reshape to 2-D; the row reduction `rowReduce`; reshape back (and again for `keepdims`);
 0-d results become scalars.  (`rowReduce` is the model's own text, factored out by `rfl`.) -/
 theorem reduceCore_rowReduce (op : RedOp) (x : COO Int) (axes : Option (List Nat)) (keepdims : Bool) :
@@ -53,6 +54,7 @@ theorem reduceCore_rowReduce (op : RedOp) (x : COO Int) (axes : Option (List Nat
       if op.ap x.fill x.fill ≠ x.fill ∧ op.super?.isNone then .error .value else
       let nd := x.shape.length
       let axes := match axes with | none => List.range nd | some a => a
+      if op.super?.isNone ∧ axes.any (fun a => x.shape.getD a 0 == 0) then .error .value else
       let kept := (List.range nd).filter fun a => !axes.contains a
       let a := (x.transposeCore (kept ++ axes)).reshapeCore
         [prod (kept.map fun d => x.shape.getD d 0), prod (axes.map fun d => x.shape.getD d 0)]
@@ -167,7 +169,7 @@ theorem reduce_add_get (x : COO Int) (axes : List Nat)
           x.get (gather (j ++ r)
             (invPerm (((List.range x.shape.length).filter fun a => !axes.contains a) ++ axes)))).sum := by
   obtain ⟨A, out, hAs, hAwf, hAsort, hAf, hAget, hred, hOs, hOf, hOget⟩ :=
-    reduceCore_lift .add x axes transposeGetInt (by simp [RedOp.super?]) hwf hs hnd hr _ rfl
+    reduceCore_lift .add x axes transposeGetInt (by simp [RedOp.super?]) (by simp [RedOp.super?]) hwf hs hnd hr _ rfl
   obtain ⟨_, hRf, hRget⟩ := rowReduce_add_get A _ _ hAs hAwf hAsort
   refine ⟨out, hred, hOs, by rw [hOf, hRf, hAf], fun j hj => ?_⟩
   rw [hOget j hj, hRget, allIdx_eq_map_unravel, List.map_map]
@@ -178,8 +180,8 @@ theorem reduce_add_get (x : COO Int) (axes : List Nat)
   exact hAget j c hj (List.mem_range.mp hc)
 
 /-- **reduce_max_get** (`max` over arbitrary axes, `keepdims=False`; idempotent path).  Same hypotheses
-as `reduce_add_get`, and no reduced extent is 0 (`0 < prod reduced extents`; NumPy raises there, and
-the code's behaviour on that input is the registered finding F-reduce-empty-axis).  The result has the
+as `reduce_add_get`, and no reduced extent is 0 (`0 < prod reduced extents`; otherwise NumPy and the code raise `ValueError`, see
+`reduce_empty_axis_rejected`).  The result has the
 kept extents as shape, the fill value unchanged, and element `j` is the maximum over all
 reduced-index combinations `r`: it bounds every `x.get (kept j, reduced r)` and is attained. -/
 theorem reduce_max_get (x : COO Int) (axes : List Nat)
@@ -220,6 +222,32 @@ theorem reduce_min_get (x : COO Int) (axes : List Nat)
     (fun a b => by simp only [RedOp.ap]; omega) (fun a b => by simp only [RedOp.ap]; omega)
     (fun a b => by simp only [RedOp.ap]; omega) (fun a b c h1 h2 => Int.le_trans h2 h1) Int.le_refl
     (fun a => by simp only [RedOp.ap]; omega) x axes transposeGetInt hwf hs hnd hr hpos
+
+/-- **reduce_empty_axis_rejected.** A ufunc without "super ufunc" (`maximum`, `minimum`: no identity)
+reduced over axes one of which has extent 0 raises `ValueError`, whatever the fill value, the other
+axes and `keepdims` (NumPy: "zero-size array to reduction operation … which has no identity"). -/
+theorem reduce_empty_axis_rejected (op : RedOp) (x : COO Int) (axes : List Nat) (kd : Bool)
+    (hsup : op.super? = none) (hz : ∃ a ∈ axes, x.shape.getD a 0 = 0) :
+    COO.reduceCore op x (some axes) kd = .error .value := by
+  rw [reduceCore_eq]
+  by_cases hadm : op.ap x.fill x.fill ≠ x.fill ∧ op.super?.isNone
+  · rw [if_pos hadm]
+  · rw [if_neg hadm]
+    dsimp only
+    obtain ⟨a, ha, h0⟩ := hz
+    rw [if_pos ⟨by simp [hsup], List.any_eq_true.mpr ⟨a, ha, by rw [h0]; rfl⟩⟩]
+
+/-- the same for `axis=None` (every axis is reduced) -/
+theorem reduce_empty_axis_rejected_none (op : RedOp) (x : COO Int) (kd : Bool)
+    (hsup : op.super? = none) (hz : ∃ a, a < x.shape.length ∧ x.shape.getD a 0 = 0) :
+    COO.reduceCore op x none kd = .error .value := by
+  obtain ⟨a, ha, h0⟩ := hz
+  rw [reduceCore_none]
+  exact reduce_empty_axis_rejected op x _ kd hsup ⟨a, List.mem_range.mpr ha, h0⟩
+
+/-- non-vacuity: `max` over the length-0 axis of a 2×0 array -/
+example : COO.reduceCore .max (⟨[2, 0], [], 3⟩ : COO Int) (some [1]) false = .error .value :=
+  reduce_empty_axis_rejected .max _ [1] false rfl ⟨1, by decide, by decide⟩
 
 /-- the operand index read by `reduce_add_get`: for a permutation `p = kept ++ axes` of the axes,
 `gather (j ++ r) (invPerm p)` has component `(j ++ r)[m]` at axis `p[m]` — kept coordinates from
